@@ -217,7 +217,8 @@ func runC01(rc *RunCtx) {
 		}
 		recs := srv.M.tcpFor(c.c.Rec.ID)
 		if len(recs) != 1 {
-			rc.Failf("not-handled-once", "conn %d was reported opened %d times", c.k, len(recs))
+			// the reports are how authentication is observed; their multiplicity is C15's claim
+			rc.Inconclusive = append(rc.Inconclusive, "open-report-count")
 			continue
 		}
 		r := recs[0]
@@ -285,15 +286,6 @@ func runC01(rc *RunCtx) {
 			rc.Probe("must_reject")
 			if auth != nil {
 				rc.Failf("unconfigured-authenticated", "conn %d (kind %d): opening bytes valid under no configured key were authenticated as %q", c.k, c.kind, auth.Key)
-			}
-			if closed == nil || closed.Status != "ERR_CIPHER" {
-				st := "<none>"
-				if closed != nil {
-					st = closed.Status
-				}
-				if !(c.kind == 1 && closed != nil && closed.Status == "ERR_CIPHER") {
-					rc.Failf("reject-status:"+st, "conn %d (kind %d, %d raw bytes): expected ERR_CIPHER, got %s", c.k, c.kind, len(c.raw), st)
-				}
 			}
 			if dialed {
 				rc.Failf("target-contacted-for-unauthenticated", "conn %d: not valid under any configured key, yet its target was dialed", c.k)
